@@ -66,7 +66,7 @@ OPS = [
     (r"\bif !", "if "), (r"&\[(\w+)\.\.\]", "SLICE+1"),
 ]
 
-SKIP_LINE = re.compile(r"^\s*(//|#\[|use |pub use |mod |pub mod |debug!|info!|warn!|error!|trace!|assert|\"|const .*: &str)")
+SKIP_LINE = re.compile(r"^\s*(//|/\*|\*|#\[|use |pub use |mod |pub mod |debug!|info!|warn!|error!|trace!|assert|\"|const .*: &str)")
 
 
 def candidates(root, only):
@@ -158,7 +158,7 @@ def lane(i, scratch, queue, lock, resf):
             else:
                 res["outcome"] = "missed"
                 res["ran"] = []
-                for p in m["props"]:
+                for p in m["props"] + [q for q in ("C01",) if q not in m["props"]]:
                     rc, out = sh([os.path.join(vf, "check"), p, "quick"], cwd=vf, env=env, timeout=1500)
                     res["ran"].append([p, rc])
                     if rc == 1 and "VIOLATION" in out:
